@@ -173,6 +173,10 @@ type Sess struct {
 	// closed). FirstBlocked counts them.
 	BlockFirstNext string
 	FirstBlocked   int
+	// FailLoadThisRequest makes the read of the session record fail once with an I/O-style error when the
+	// next engine is built with a persister of its own (fault injection); LoadFailed counts them.
+	FailLoadThisRequest bool
+	LoadFailed          int
 	keptPe         *persist.Persister
 	keptPeStore    db.Db
 	PosLog         []Pos // position after every request
@@ -496,6 +500,8 @@ func (s *Sess) build() error {
 				s.W.sharedPeStore = s.Store
 			}
 			s.Pe = s.W.sharedPe
+		} else if s.FailLoadThisRequest {
+			s.Pe = persist.NewPersister(&FaultDb{Db: s.Store, S: s})
 		} else {
 			s.Pe = persist.NewPersister(s.Store)
 		}
@@ -651,6 +657,7 @@ func (s *Sess) Request(input []byte, fresh bool) *Step {
 	s.cur = nil
 	s.FailTemplateThisRequest = false
 	s.FailWriteThisRequest = false
+	s.FailLoadThisRequest = false
 	s.Steps = append(s.Steps, st)
 	pp, pi := s.Position()
 	s.PosLog = append(s.PosLog, Pos{pp, pi, len(s.CallLog)})
